@@ -27,7 +27,10 @@ RULE = ("fields: rendered emulsions + dyadic noise on Cartesian grids d=1..3 (3.
         "of every rule must also equal that of the same values as float64 (defect F36); rules extrema/auto/mean/otsu + three numeric thresholds per field (an image value or a "
         "dyadic number; exactly zero as int 0 / 0.0 / -0.0 / np.float64 / np.float32 / 0-d array; the image minimum, maximum, a value between "
         "two adjacent image values, an image value as numpy scalar); minimal radii: a radius present, its float neighbours, 0, 0.5, -1, "
-        "-inf, +inf; affine maps a=2^k, b dyadic or b = -a*threshold (mapped threshold exactly 0); "
+        "-inf, +inf; affine maps (exactly representable on the image, checked): a=2^k with small dyadic b, b = -a*threshold (mapped threshold "
+        "exactly 0), low contrast (a = 2^0 .. 2^-10 with offset up to 2^20 a), tiny scale (a = 2^-30 .. 2^-10) -- the mapped image must give "
+        "the same droplets and satisfy the property on its own, for every rule; multi-level images (3-4 grey levels, skewed populations) "
+        "always get a low-contrast / tiny-scale map; 'otsu' is judged exactly (rationals) in Python as well as inside Coq; "
         "non-trivial = mask neither empty nor full; distinct by (field, rule, minimal radius)")
 
 
@@ -118,7 +121,7 @@ def make_field(rng: random.Random, kind=None):
     grid = make_grid(gs)
     fam = gs["family"]
     shape = list(grid.shape)
-    kind = kind or rng.choice(["drops", "drops", "noise", "mixed", "const"])
+    kind = kind or rng.choice(["drops", "drops", "noise", "mixed", "const", "levels"])
     data = np.zeros(shape)
     if kind in ("drops", "mixed"):
         if fam == "cart":
@@ -138,6 +141,12 @@ def make_field(rng: random.Random, kind=None):
         data = data + nrng.uniform(-0.3, 0.3 if kind == "mixed" else 1.0, size=shape)
     if kind == "const":
         data = data + rng.randrange(-4, 5) / 4.0
+    if kind == "levels":   # few grey levels with skewed populations: Otsu and the extrema midpoint / the mean split differently
+        levels = sorted(rng.sample(range(0, 1025), rng.choice([3, 3, 4])))
+        levels[0], levels[-1] = 0, 1024
+        p = np.array([0.61, 0.33, 0.06, 0.05][:len(levels)])
+        nrng = np.random.default_rng(rng.randrange(1 << 30))
+        data = np.array(levels, dtype=float)[nrng.choice(len(levels), size=shape, p=p / p.sum())] / 1024.0
     data = np.round(data * 1024) / 1024.0  # coarse dyadic
     image = rng.choice(IMAGES)
     values = image_values(rng, data, image)
@@ -202,6 +211,41 @@ def emul_key(em):
     return sorted((tuple(np.round(d.position, 12)), round(d.radius, 12), type(d).__name__) for d in em)
 
 
+def otsu_acceptable(data, t) -> bool:
+    """The property text for 'otsu' evaluated exactly (rationals), mirroring Model/Threshold.v otsu_accepts: t is (up to 1e-12
+    relative) a centre of the 256-bin histogram over [min, max] (a constant image: [v - 1/2, v + 1/2], first centre) whose exact
+    between-class variance is within 1e-9 relative of the maximum over the 255 splits."""
+    from fractions import Fraction as Fr
+    if not math.isfinite(t):
+        return False
+    t = Fr(float(t))
+    vals = [Fr(float(v)) for v in np.asarray(data).ravel()]
+    mn, mx = min(vals), max(vals)
+    const = mn == mx
+    lo, hi = (mn - Fr(1, 2), mx + Fr(1, 2)) if const else (mn, mx)
+    w = (hi - lo) / 256
+    centre = lambda k: lo + (k + Fr(1, 2)) * w   # noqa: E731
+    if const:
+        return abs(t - centre(0)) <= Fr(1, 10 ** 12) * (abs(t) + 1)
+    cnt = [0] * 256
+    for v in vals:
+        cnt[min(int((v - lo) / w), 255)] += 1
+    n, tot = len(vals), sum(c * centre(k) for k, c in enumerate(cnt))
+    var, w1, s1 = [], 0, Fr(0)
+    for k in range(255):
+        w1 += cnt[k]
+        s1 += cnt[k] * centre(k)
+        w2 = n - w1
+        if w1 == 0 or w2 == 0:
+            var.append(Fr(0))     # x / 0 = 0 in the model
+        else:
+            d = s1 / w1 - (tot - s1) / w2
+            var.append(w1 * w2 * d * d)
+    best = max(var)
+    return any(abs(t - centre(k)) <= Fr(1, 10 ** 12) * (abs(t) + (hi - lo)) and (1 - Fr(1, 10 ** 9)) * best <= var[k]
+               for k in range(255))
+
+
 def oracle_one(field, rule, mn_r):
     """Property text over the implementation; returns a failure description or None."""
     from pde import ScalarField
@@ -213,9 +257,10 @@ def oracle_one(field, rule, mn_r):
         t_impl = threshold_otsu(field.data)
         # accept ties: any threshold giving the same class split is equivalent; compare masks below with t_impl
         flat = np.sort(np.unique(field.data))
-        if not math.isclose(t_impl, tau, rel_tol=1e-9, abs_tol=1e-9):
-            # tie between bins is legitimate only if both give the maximal variance (checked in Coq)
-            tau = t_impl
+        if not otsu_acceptable(field.data, t_impl):
+            return (f"threshold_otsu returned {t_impl!r}, which is not a centre of the 256-bin histogram maximising the between-class "
+                    f"variance (the maximiser is {tau!r})")
+        tau = t_impl    # ties between bins are legitimate: the accepted threshold of the implementation defines the binary image
     ref = locate_droplets_in_mask(ScalarField(field.grid, field.data > tau, dtype=bool))
     cand = [d for d in ref]
     want = sorted((tuple(np.round(d.position, 12)), round(d.radius, 12)) for d in cand if d.radius > mn_r)
@@ -242,13 +287,44 @@ def oracle_float64(field, rule, mn_r):
 def oracle_affine(field, rule, mn_r, a, b):
     from pde import ScalarField
     from droplets.image_analysis import locate_droplets
-    f2 = ScalarField(field.grid, a * field.data + b)
-    r2 = rule if isinstance(rule, str) else a * rule + b
+    f2 = ScalarField(field.grid, affine_data(field, a, b))
+    r2 = rule if isinstance(rule, str) else a * float(rule) + b
     e1 = emul_key(locate_droplets(field, threshold=rule, minimal_radius=mn_r))
     e2 = emul_key(locate_droplets(f2, threshold=r2, minimal_radius=mn_r))
     if e1 != e2:
         return f"result changes under the affine map {a}*f+{b}: {e1} vs {e2}"
-    return None
+    return oracle_one(f2, r2, mn_r)     # the mapped image on its own: droplets of its binary image at its documented threshold
+
+
+def affine_data(field, a, b):
+    return a * np.asarray(field.data, dtype=np.float64) + b
+
+
+def affine_exact(field, rule, a, b) -> bool:
+    """the map is exactly representable on this image (and on the numeric threshold): no cell sits on a rounding knife-edge"""
+    x = np.asarray(field.data, dtype=np.float64)
+    ok = bool(np.all((affine_data(field, a, b) - b) / a == x))
+    if not isinstance(rule, str):
+        ok = ok and (a * float(rule) + b - b) / a == float(rule)
+    return ok
+
+
+def gen_affine(rng, named, value, low_contrast_only=False):
+    """-> (a, b, kind); a a power of two, b a dyadic number"""
+    kinds = ["low contrast: offset up to 2^20 x scale", "tiny scale 2^-30 .. 2^-10"]
+    if not low_contrast_only:
+        kinds += ["ordinary (a = 2^-3 .. 2^3, small dyadic b)"] * 2 + ([] if named else ["b = -a * threshold (mapped threshold exactly 0)"] * 2)
+    kind = rng.choice(kinds)
+    if kind.startswith("ordinary"):
+        return 2.0 ** rng.randrange(-3, 4), rng.randrange(-16, 17) / 4.0, kind
+    if kind.startswith("b = -a"):
+        a = 2.0 ** rng.randrange(-3, 4)
+        return a, -a * float(value), kind
+    if kind.startswith("low"):
+        a = 2.0 ** -rng.randrange(0, 11)
+        return a, a * 2.0 ** rng.choice([10, 14, 17, 20]) * rng.choice([1, 1, 3, -1]), kind
+    a = 2.0 ** -rng.randrange(10, 31)
+    return a, a * rng.choice([0, 0, 1, -3, 1024]), kind
 
 
 RULES = ["extrema", "auto", "mean", "otsu"]
@@ -333,6 +409,7 @@ def check(ctx: vlib.Ctx) -> int:
     from droplets.image_analysis import locate_droplets, threshold_otsu
     nfields = ctx.scale(120, 1200)
     mask_cases, otsu_cases, rs_cases, meta, fails = [], [], [], [], []
+    mask_inputs, otsu_inputs = [], []   # the input of every case evaluated inside Coq: a disagreement there is reported with it
     rule_ctor = {"extrema": "ThrExtrema", "auto": "ThrAuto", "mean": "ThrMean", "otsu": "ThrOtsu"}
     for i in range(nfields):
         field, kind, gs = make_field(rng)
@@ -389,12 +466,14 @@ def check(ctx: vlib.Ctx) -> int:
                 t_impl = float(threshold_otsu(field.data))
                 if math.isfinite(t_impl):
                     otsu_cases.append(f"({vlib.qlit(flat[0])}, {data_lit}, {vlib.qlit(t_impl)}, {mlit})")
+                    otsu_inputs.append(dict(base_input))
                 else:
                     fails.append({"what": f"threshold_otsu returned {t_impl!r}", "input": dict(base_input)})
             else:
                 ctor = rule_ctor[rule] if named else f"(ThrNum {vlib.qlit(float(value))})"
                 mask_cases.append(f"({ctor}, {vlib.qlit(flat[0])}, {data_lit}, {mlit})")
                 meta.append((flat, rname, list(field.grid.shape)))
+                mask_inputs.append(dict(base_input))
             # size filter: survivors among the candidates (identified by index through radius order)
             out_r = sorted(round(d.radius, 15) for d in em)
             keep = [k for k, r in enumerate(radii) if r > mn_r]
@@ -413,14 +492,20 @@ def check(ctx: vlib.Ctx) -> int:
                 ctx.count("float64_equality_checks", gs["image"])
                 if f:
                     fails.append({"what": f, "input": dict(base_input)})
+            maps = []
             if i % 3 == 0:
-                a = 2.0 ** rng.randrange(-3, 4)
-                if not named and rng.random() < 0.5:
-                    b, bkind = -a * float(value), "b = -a * threshold (mapped threshold exactly 0)"
-                else:
-                    b, bkind = rng.randrange(-16, 17) / 4.0, "dyadic b"
-                f = oracle_affine(field, rule, mn_r, a, b)
-                ctx.count("affine_checks", bkind)
+                maps.append(gen_affine(rng, named, value))
+            if i % 3 == 1 or kind.startswith("levels"):   # low-contrast / tiny-scale maps: every rule, multi-level images always
+                maps.append(gen_affine(rng, named, value, low_contrast_only=True))
+            for a, b, akind in maps:
+                if not affine_exact(field, rule, a, b):
+                    ctx.count("affine_checks", "skipped: map not exactly representable on this image")
+                    continue
+                try:
+                    f = oracle_affine(field, rule, mn_r, a, b)
+                except Exception as e:  # noqa
+                    f = f"locate_droplets raised {type(e).__name__} on the image mapped by {a}*f+{b}: {str(e)[:120]}"
+                ctx.count("affine_checks", akind)
                 if f:
                     fails.append({"what": f, "input": {**base_input, "a": a, "b": b}})
     narrow_integer_corpus(ctx, fails)
@@ -437,14 +522,30 @@ def check(ctx: vlib.Ctx) -> int:
         bad = vlib.run_cases(ctx, "mask", header, mask_cases, "agree_mask", shard=150)
         for k in bad[:3]:
             ctx.broken.append(f"correspondence mask: model and implementation differ for rule {meta[k][1]} on field {meta[k][0][:8]}... shape {meta[k][2]}")
+            fails.append({"what": f"the mask handed to locate_droplets_in_mask is not the set of cells exceeding the documented threshold "
+                                  f"(rule {meta[k][1]}; evaluated inside Coq)", "input": mask_inputs[k]})
         bad = vlib.run_cases(ctx, "otsu", header, otsu_cases, "agree_otsu", shard=8)
         if bad:
             ctx.broken.append(f"correspondence otsu: {len(bad)} field(s) where threshold_otsu is not an (almost) maximising bin centre or the mask differs; first {bad[0]}")
+            for k in bad[:3]:
+                fails.append({"what": "threshold_otsu is not an (almost) maximising centre of the 256-bin histogram or the mask is not the set "
+                                      "of cells exceeding it (evaluated inside Coq)", "input": otsu_inputs[k]})
         bad = vlib.run_cases(ctx, "filter", header, rs_cases, "rs_agree", shard=400)
         if bad:
             ctx.broken.append(f"correspondence size filter: {len(bad)} disagreeing case(s), first {bad[0]}")
-    for f in fails[:3]:
+    # up to three violations, of different kinds first (kind = the wording up to the first number / colon)
+    def kind_of(f):
+        import re
+        return re.split(r"[0-9:\[(]", f["what"], maxsplit=1)[0][:60]
+    by_kind = {}
+    for f in fails:
+        by_kind.setdefault(kind_of(f), []).append(f)
+    chosen = [fs[0] for fs in by_kind.values()][:3]
+    chosen += [f for f in fails if not any(f is c for c in chosen)][:3 - len(chosen)]
+    for f in chosen:
         ctx.violations.append({**f, "found": True, "broken": ctx.broken[:3]})
+    ctx.extra["failing_inputs_total"] = len(fails)
+    ctx.extra["failing_inputs_by_kind"] = {k: len(v) for k, v in by_kind.items()}
     return vlib.finish(ctx, "", TRUSTED, ASSUME, RULE)
 
 
